@@ -153,15 +153,23 @@ func runC06(e *Engine, r *Report) {
 		// the lhs of that comparison counts distinct confirmed senders (+1 for self)
 		confirmedF := e.Field("internal/raft", "readStatus", "confirmed")
 		okCount := false
-		forEachInstr(confirm, func(in ssa.Instruction) {
+		isIntParam := func(v ssa.Value) bool {
+			p, ok := v.(*ssa.Parameter) // unbound: the quorum parameter of confirm or of a helper it passes it to
+			if !ok {
+				return false
+			}
+			bt, isB := p.Type().Underlying().(*types.Basic)
+			return isB && bt.Kind() == types.Int
+		}
+		e.forEachInstrRegion(confirm, 2, func(in ssa.Instruction) {
 			b, ok := in.(*ssa.BinOp)
 			if !ok || cmpString(b.Op) == "" {
 				return
 			}
 			side := b.X
-			if stripConv(b.X) == ssa.Value(qParam) {
+			if isIntParam(b.X) {
 				side = b.Y
-			} else if stripConv(b.Y) != ssa.Value(qParam) {
+			} else if !isIntParam(b.Y) {
 				return
 			}
 			if e.dependsOn(side, func(v ssa.Value) bool { return lenOfV(fieldV(confirmedF))(v) }, 0) {
